@@ -23,6 +23,8 @@ Streams
      timing-line and header look-alikes ...) at a text-node boundary (nothing or a style node between the two text nodes) in
      the first / middle / last group (deterministic grid) + random captions; the Coq cue grammar must see one cue per group
      with the lines of that group's nodes (ok_cues_strict); the document must equal the model's (model/TextWriteVtt.v, 305).
+  G  (wave 7) style dictionaries with a colour (quotes of both kinds, & < >, tab / LF / CR, entity look-alikes) through the
+     three DFXP writers: judged like A, payloads also through B (attribute values: Coq strict parser = lxml).
 Known findings are recognised by the FAILURE (the observed lines equal the authored ones with a blank after every SAMI
 text node / with U+00A0 for every empty WebVTT text node), never by the shape of the input.
 """
@@ -556,6 +558,39 @@ def run_histories(ctx, res, n):
 
 
 
+# ---- stream G (wave 7): style dictionaries with a colour - attribute values through quoteattr, three DFXP writers ----------
+COLOR_SYMS = ['"', "'", "<", "&", ">", "\t", "\n", "\r", " ", ";", "a", "\u00e9", "]", "#", "=", "/", "&amp;", "&quot;", "&#10;"]
+
+
+def run_colors(ctx, res, n):
+    """captions [span(colour) text /span] and spans inside a line; the colour is any string over quotes of both kinds, markup
+    characters, tab / LF / CR, entity look-alikes.  Judged like stream A (text lines through lxml strict + literal model tie);
+    the payloads go through stream B as well (Coq strict parser = lxml, attribute values included), so the theorems
+    C03_quoteattr_roundtrip / C03_dfxp_payload_parse_color are tied to the real writers on exactly these values."""
+    rng = ctx.rng
+    cases = []
+    for k in range(n):
+        specs = []
+        for _ in range(rng.randint(1, 3)):
+            col = "".join(rng.choice(COLOR_SYMS) for _ in range(rng.randint(0, 6)))
+            st = (rng.random() < 0.5, rng.random() < 0.2, False, col)
+            line = G.rand_line(rng, adversarial=0.6)
+            sp = [("s", True) + st, ("t", line), ("s", False) + st]
+            if rng.random() < 0.4:
+                sp = [("t", "pre ")] + sp + [("b",), ("t", G.rand_line(rng, adversarial=0.6))]
+            specs.append(sp)
+            res["distribution"]["G_colour_values"] = res["distribution"].get("G_colour_values", 0) + 1
+            if '"' in col and "'" in col:
+                res["distribution"]["G_colour_both_quotes"] = res["distribution"].get("G_colour_both_quotes", 0) + 1
+            if any(c in col for c in "\t\n\r"):
+                res["distribution"]["G_colour_tab_lf_cr"] = res["distribution"].get("G_colour_tab_lf_cr", 0) + 1
+        for (fmt, W, kind, mreq) in WRITERS[:3]:
+            cs = G.capset(specs)
+            out = impl.call(lambda: W().write(cs))
+            cases.append((fmt, kind, mreq, specs, out))
+    return process_cases(ctx, res, cases)
+
+
 # ---- stream F (wave 7): WebVTT captions written as several cues (layout groups), junction-formed metacharacter sequences --
 JUNCTIONS = [("up --", "> down"), ("x -", "-> y"), ("a --", ">"), ("-", "->"), ("--", ">"), ("a -", "-", "> c"), ("-", "-", ">"),
              ("a &", "amp; b"), ("&", "lt;"), ("&", "gt;"), ("a &am", "p;"), ("&#", "60;"), ("&#x3", "C;"), ("&n", "bsp;"),
@@ -697,10 +732,12 @@ def run_layout_groups(ctx, res, nrand):
 
 def run(ctx):
     res = {"evaluations": 0, "nontrivial": set(), "violations": [], "disagreements": [], "distribution": {},
-           "streams": 5, "notes": []}
+           "streams": 6, "notes": []}
     records = run_sets(ctx, res, ctx.n(260, 6000))
     payloads = []
     for rec in records:
+        payloads.extend(rec.get("payloads") or [])
+    for rec in run_colors(ctx, res, ctx.n(120, 4000)):
         payloads.extend(rec.get("payloads") or [])
     run_xml_validation(ctx, res, payloads, ctx.n(1500, 40000))
     run_strings(ctx, res, ctx.n(4, 5), ctx.n(500, 20000))
@@ -720,6 +757,11 @@ def run(ctx):
                     "all visible characters and breaks in order for balanced flat spans (interior white space NOT covered)",
                     "WebVTT: cue-text reading (HTML character references) of encode(s) is s; the assembled cue text never "
                     "contains '-->' and has no empty line inside (all node lists); no document-level theorem",
+                    "wave 7: quoteattr - the strict parser reads the attribute value written for ANY string over XML Char back "
+                    "as that string (C03_quoteattr_roundtrip, _content_roundtrip); the DFXP payload theorems hold for style "
+                    "dictionaries with any colour (C03_*_payload_parse_color, _wellformed_color)",
+                    "wave 7: WebVTT captions written as several cues (layout groups): no cue text of any group contains "
+                    "'-->' (C03_vtt_groups_no_arrow); one layout = the single cue text (C03_vtt_groups_one_layout)",
                     "SRT: model document (merge of equally timed captions included) read by the block grammar satisfies "
                     "ok_cues_strict against the authored lines (C03_srt_doc_meets_oracle)",
                     "MicroDVD: model document read by the line grammar satisfies ok_cues_strict for texts without '|' "
@@ -728,7 +770,9 @@ def run(ctx):
                                 "html.parser", "the model's <p> payload / document equals the implementation's literally on "
                                 "every generated caption set (a difference is reported as a disagreement)",
                                 "authored lines survive with their interior white space for DFXP x3, SAMI, WebVTT (oracle on "
-                                "real output only)", "Coq XML content parser agrees with lxml on payloads and mutated payloads"]}
+                                "real output only)", "Coq XML content parser agrees with lxml on payloads and mutated payloads",
+                                "WebVTT layout groups: one cue per group with the lines of its nodes (oracle on real output, "
+                                "stream F) and the document equals the model's (request 305) - no theorem about the cue LINES"]}
     res["trusted_extra"] = ["observers: lxml.etree (strict, no recovery) for DFXP; html.parser for SAMI; "
                             "Coq reference grammars (spec/SpecTextVtt.v, SpecTextBlocks.v) for WebVTT/SRT/MicroDVD"]
     return res
